@@ -16,7 +16,7 @@ HERE = "/verif"
 ENV = dict(os.environ, GOFLAGS="-mod=mod", GOPROXY="off", GOSUMDB="off", GOTOOLCHAIN="local", GOWORK="off")
 
 def sh(cmd, cwd, timeout=900):
-    r = subprocess.run(cmd, cwd=cwd, env=ENV, capture_output=True, text=True, shell=isinstance(cmd, str), timeout=timeout)
+    r = subprocess.run(cmd, cwd=cwd, env=ENV, capture_output=True, text=True, errors="replace", shell=isinstance(cmd, str), timeout=timeout)
     return r.returncode, r.stdout + r.stderr
 
 def needs_from_notes(path):
